@@ -2,6 +2,7 @@ package checks
 
 import (
 	"bufio"
+	"context"
 	"encoding/json"
 	"flag"
 	"fmt"
@@ -152,6 +153,10 @@ func work(args []string) int {
 		}
 		curStart.Store(time.Now().UnixNano())
 		curRun.Store(int64(run))
+		// announce the run (unbuffered): if the interpreter takes the whole process down
+		// - a fatal error is not a panic - the driver knows which run it was
+		out.Flush()
+		fmt.Fprintf(os.Stdout, "{\"type\":\"start\",\"runs\":%d}\n", run)
 		vs := c.Run(*seed, uint64(run), nil, st, nil)
 		curRun.Store(-1)
 		done++
@@ -199,6 +204,7 @@ func drive(args []string) int {
 	var viols []Viol
 	runsDone := 0
 	infra := false
+	crashed := 0
 	var wg sync.WaitGroup
 	for w := 0; w < nw; w++ {
 		wg.Add(1)
@@ -217,6 +223,7 @@ func drive(args []string) int {
 			sc := bufio.NewScanner(stdout)
 			sc.Buffer(make([]byte, 1<<20), 1<<28)
 			gotStats := false
+			lastStart := -1
 			for sc.Scan() {
 				var l workLine
 				if json.Unmarshal(sc.Bytes(), &l) != nil {
@@ -224,6 +231,8 @@ func drive(args []string) int {
 				}
 				mu.Lock()
 				switch l.Type {
+				case "start":
+					lastStart = l.Runs
 				case "viol":
 					viols = append(viols, *l.Viol)
 				case "stats":
@@ -236,6 +245,15 @@ func drive(args []string) int {
 				mu.Unlock()
 			}
 			if err := cmd.Wait(); err != nil || !gotStats {
+				// did the interpreter take the process down (stack overflow, concurrent map
+				// writes, ...)? then the run in progress does it again in a process of its own
+				if lastStart >= 0 && crashesAlone(self, *prop, *tier, seed, lastStart) {
+					mu.Lock()
+					viols = append(viols, crashViol(*prop, *tier, seed, lastStart))
+					crashed++
+					mu.Unlock()
+					return
+				}
 				fmt.Fprintf(os.Stderr, "INFRA: worker %d failed: %v\n", w, err)
 				mu.Lock()
 				infra = true
@@ -311,7 +329,10 @@ func drive(args []string) int {
 			continue
 		}
 		// minimise, then confirm in a fresh process
-		min := minimise(c, v)
+		min := v
+		if v.Engine != "crash" {
+			min = minimise(c, v) // (a crash is replayed in a child process only, never in the driver)
+		}
 		path := filepath.Join(*verif, "replays", fmt.Sprintf("%s-%d-%d.json", v.Prop, seed, newViol))
 		b, _ := json.MarshalIndent(min, "", "  ")
 		os.WriteFile(path, b, 0o644)
@@ -409,6 +430,24 @@ func minimise(c Check, v Viol) Viol {
 	return best
 }
 
+// crashesAlone runs one run index in a process of its own and reports whether that
+// process dies (neither statistics nor a clean exit).
+func crashesAlone(self, prop, tier string, seed uint64, run int) bool {
+	ctx, cancel := context.WithTimeout(context.Background(), 10*time.Minute)
+	defer cancel()
+	cmd := exec.CommandContext(ctx, self, "work", "-prop", prop, "-tier", tier, "-seed", fmt.Sprint(seed), "-shard", fmt.Sprint(run), "-nshard", "1000000000")
+	out, err := cmd.Output()
+	return err != nil && ctx.Err() == nil && !strings.Contains(string(out), `"type":"stats"`)
+}
+
+func crashViol(prop, tier string, seed uint64, run int) Viol {
+	return Viol{Prop: prop, Tier: tier, Seed: seed, Run: uint64(run), Engine: "crash",
+		Signature: prop + "/host-crash",
+		Derived:   map[string]interface{}{"what": "the generated workload of this run takes the interpreter's process down (a fatal runtime error, not a Pangaea error and not a recoverable panic); replaying runs the same run index in a child process"},
+		Expected:  map[string]interface{}{"outcome": "a value or a Pangaea error"},
+		Actual:    map[string]interface{}{"outcome": "the process died"}}
+}
+
 func replay(args []string) int {
 	fs := flag.NewFlagSet("replay", flag.ExitOnError)
 	file := fs.String("file", "", "")
@@ -433,6 +472,18 @@ func replay(args []string) int {
 	tier := v.Tier
 	if tier == "" {
 		tier = "quick"
+	}
+	if v.Engine == "crash" {
+		self, _ := os.Executable()
+		if crashesAlone(self, v.Prop, tier, v.Seed, int(v.Run)) {
+			if !*quiet {
+				fmt.Printf("reproduced signature=%s: the process running run %d died again\n", v.Signature, v.Run)
+			}
+			fmt.Printf("VIOLATION property=%s replay=%s\n", v.Prop, *file)
+			return 1
+		}
+		fmt.Printf("not reproduced: run %d ended normally\n", v.Run)
+		return 0
 	}
 	c.Init(tier)
 	st := c.NewStats()
